@@ -249,8 +249,10 @@ def run_config(w, c, idx, psize=None):
             raw_env = {b"KESTREL_PASSWORD": b"p\xff\xfew"}
         elif cause != "unset_password":
             env["KESTREL_PASSWORD"] = pw
+        # data on stdin arrives in one go or (every second stdin run) in 5000-byte pieces with pauses, like from a slow producer
+        pieces = 5000 if (c["inp"] == "stdin" and cmd != "key_generate" and idx % 2 == 1 and len(stdin) > 5000) else None
         r = cli.kestrel(args, env=env, stdin=stdin, timeout=120, stdout_path="/dev/full" if cause == "stdout_full" else None,
-                        raw_env=raw_env, setsid=(cause == "no_terminal"), stdout_closed=(cause == "stdout_closed"))
+                        raw_env=raw_env, setsid=(cause == "no_terminal"), stdout_closed=(cause == "stdout_closed"), stdin_pieces=pieces)
         # ---- classify the output ----
         if cause in ("output_device_full", "stdout_full", "stdout_closed", "input_read_error"):
             got = b"n/a"
@@ -890,6 +892,23 @@ def c09(pid, tier, seed, selftest=False):
         rep.case("krtok:" + s_["id"], True)
     run_oneshot(rep, pid, "krtok", "kr", kscen, tpl, seed, "Trace_Keyring", nproc=16, only_prefixes=["C09_"])
     rep.extra["keyring_token_texts"] = len(kscen)
+    # ---- crafted handshakes: messages that authenticate up to the point where a key exchange with a low-order or foreign
+    # key happens (random bytes never get that far), built from the NoiseAdv scenarios ----
+    import checks_noise
+    nres = run_tlc(pid, "noise-emit", "NoiseAdv", checks_noise.noise_cfg(["Emit"]), workers=1, timeout=600)
+    rep.add_model("noise-emit", nres, "handshake constructions for the crash surface")
+    hscen = []
+    for i, r in enumerate(nres.replays):
+        sc = r["sc"]
+        if "LO" not in (sc["sClaim"], sc["rs"], sc["eClaim"]) and sc["forge"] == "none":
+            continue
+        if not thorough and (sc["splice"] != "none" or i % 2):
+            continue
+        hscen.append({"op": "hs", "id": "h9.%d" % i, "sc": sc, "class": r["class"], "lo": i % 14, "plen": 10})
+    for s_ in hscen:
+        rep.case("hs:" + s_["id"], True)
+    run_oneshot(rep, pid, "hs", "noise", hscen, tpl, seed, "Trace_Noise", nproc=16, only_prefixes=["C09_"])
+    rep.extra["crafted_handshakes"] = len(hscen)
     # ---- argument vectors ----
     av = run_tlc(pid, "argv", "MC_Argv", "SPECIFICATION Spec\nCONSTANTS\n  MaxArgs = %d\n  Vocab <- %s\nINVARIANT Emit\nCHECK_DEADLOCK FALSE\n"
                  % ((4, "VocabSmall") if thorough else (3, "VocabSmall")), workers=1, timeout=900)
